@@ -89,6 +89,19 @@ CFGS = {
     "tkq": dict(InitVals="ValsTk", EmLists="ListsTkQ", EvLists="EvListsTkQ", TimeLists="TimeListsTkQ", Times="{0}",
                 MinRs="{0}", MutRs="{3}", MinDists="{0}", TlLists="NoLists", MinDurs="{0}", TrackMethods="MethodsAll", MaxDrops=24, MaxEms=8, MaxRefs=7, MaxEv=2,
                 MaxTcs=1, MaxTrks=8, MaxLen=3, Depth=5, Ops="OpsTkQ"),
+    # the pipeline: images -> located emulsions / offline time courses -> tracks -> files -> reloaded
+    "sysq": dict(InitVals="ValsSys", EmLists="NoLists", EvLists="NoLists", TimeLists="NoLists", Times="{0}",
+                 MinRs="{0}", MutRs="{3}", MinDists="{0}", TlLists="NoLists", MinDurs="{0}", TrackMethods="MethodsAll", Images="ImagesA",
+                 ImgLists="ImgListsQ", LocWidths="WidthsA", MaxDrops=40, MaxEms=8, MaxRefs=3, MaxEv=1,
+                 MaxTcs=2, MaxTrks=8, MaxLen=3, Depth=4, Ops="OpsSysQ"),
+    "sys4": dict(InitVals="ValsSys", EmLists="NoLists", EvLists="NoLists", TimeLists="NoLists", Times="{0}",
+                 MinRs="{0}", MutRs="{3}", MinDists="{0}", TlLists="NoLists", MinDurs="{0}", TrackMethods="MethodsAll", Images="ImagesA",
+                 ImgLists="ImgListsA", LocWidths="WidthsA", MaxDrops=40, MaxEms=10, MaxRefs=3, MaxEv=3,
+                 MaxTcs=2, MaxTrks=8, MaxLen=3, Depth=4, Ops="OpsSys"),
+    "sys5": dict(InitVals="ValsSys", EmLists="NoLists", EvLists="NoLists", TimeLists="NoLists", Times="{0}",
+                 MinRs="{0}", MutRs="{3}", MinDists="{0}", TlLists="NoLists", MinDurs="{0}", TrackMethods="MethodsAll", Images="ImagesA",
+                 ImgLists="ImgListsA", LocWidths="WidthsA", MaxDrops=40, MaxEms=10, MaxRefs=3, MaxEv=3,
+                 MaxTcs=2, MaxTrks=8, MaxLen=3, Depth=5, Ops="OpsSys"),
     # track list files
     "tfq": dict(InitVals="ValsTr", EmLists="ListsTfQ", EvLists="NoLists", TimeLists="TimeListsTfQ", Times="{4}",
                 MinRs="{0}", MutRs="{3}", MinDists="{0}", TlLists="TlListsTfQ", MinDurs="{0}", MaxDrops=20, MaxEms=0, MaxRefs=4, MaxEv=0,
@@ -100,14 +113,14 @@ CFGS = {
                 MinRs="{0}", MutRs="{3}", MinDists="{0}", TlLists="TlListsA", MinDurs="{0}", MaxDrops=20, MaxEms=0, MaxRefs=5, MaxEv=0,
                 MaxTcs=0, MaxTrks=5, MaxLen=3, Depth=5, Ops="OpsTf"),
 }
-QUICK = ["em3", "df3", "tc4", "tr3", "tl3", "io3", "tkq", "tfq"]
-THOROUGH = ["em4", "df4", "em5", "tc5", "tr4", "tl4", "io4", "tk4", "tf4", "tk5"]
+QUICK = ["em3", "df3", "tc4", "tr3", "tl3", "io3", "tkq", "tfq", "sysq"]
+THOROUGH = ["em4", "df4", "em5", "tc5", "tr4", "tl4", "io4", "tk4", "tf4", "tk5", "sys4"]
 
 
 def cfg_text(name: str, observe: str = "ObservePrint") -> str:
     c = CFGS[name]
     lines = ["SPECIFICATION Spec", "CONSTANTS"]
-    c = {"TrackMethods": "NoMethods", **c}
+    c = {"TrackMethods": "NoMethods", "Images": "NoImages", "ImgLists": "NoLists", "LocWidths": "NoWidths", **c}
     for k, v in c.items():
         if isinstance(v, int) or v.startswith("{"):
             lines.append(f"  {k} = {v}")
@@ -120,6 +133,8 @@ def cfg_text(name: str, observe: str = "ObservePrint") -> str:
 
 
 # ---------------------------------------------------------------- the real world
+# the images of MC_Collections.tla (ImagesA) / MC_TraceCollections.tla
+IMAGES_A = [[0, 1, 1, 0, 0, 1, 0, 0], [0, 0, 1, 1, 0, 1, 1, 0], [0, 0, 0, 0, 0, 0, 0, 0], [1, 1, 1, 0, 0, 0, 0, 1]]
 KIND_CLS = {"S1": ("SphericalDroplet", 1), "D1": ("DiffuseDroplet", 1), "S2": ("SphericalDroplet", 2)}
 
 
@@ -137,6 +152,8 @@ def make_droplet(v):
 class World:
     """The caller's handles on real objects; nothing else is kept."""
 
+    images = IMAGES_A
+
     def __init__(self, init_vals):
         self.refs = [make_droplet(v) for v in init_vals]
         self.ev = []
@@ -146,6 +163,13 @@ class World:
         self.arr = None
         self.dir = None
         self.file_kind = {1: "none", 2: "none"}
+
+    def _field(self, g):
+        """image number g (1-based) of the instance as a scalar field: cells of width 2 starting at 0"""
+        from pde import CartesianGrid, ScalarField
+
+        img = np.array(self.images[g - 1], float)
+        return ScalarField(CartesianGrid([[0, 2 * len(img)]], len(img)), img)
 
     def path(self, p):
         import tempfile
@@ -253,6 +277,21 @@ class World:
                 tl = DropletTrackList.from_emulsion_time_course(self.tcs[o["c"] - 1], method=o["meth"], **kw)
                 self.trks.extend(list.__iter__(tl))
                 self.tls.append(tl)
+            elif op == "EmLocate":
+                from droplets import locate_droplets
+
+                kw = {} if o["w"] < 0 else {"interface_width": float(o["w"])}
+                self.ev.append(locate_droplets(self._field(o["g"]), **kw))
+            elif op == "TcFromStorage":
+                from pde import MemoryStorage
+
+                storage = MemoryStorage()
+                fields = [self._field(g) for g in o["L"]]
+                storage.start_writing(fields[0])
+                for k, f in enumerate(fields):
+                    storage.append(f, k)
+                kw = {} if o["w"] < 0 else {"interface_width": float(o["w"])}
+                self.tcs.append(EmulsionTimeCourse.from_storage(storage, progress=False, **kw))
             elif op == "TlSave":
                 self.file_kind[o["p"]] = "tl"
                 self.tls[o["l"] - 1].to_file(self.path(o["p"]))
